@@ -173,6 +173,12 @@ func (t *Tokens) realDigest(tok string) string {
 			s = "md5:d41d8cd98f00b204e9800998ecf8427e"
 		case "4":
 			s = "sha256:" + strings.Repeat("a", 63)
+		case "6":
+			// not a digest: a path from blobs/sha256 of a top-level repository to the layout next to the storage root
+			s = "sha256:../../../../outside/blobs/sha256/" + digest.FromString("outsidesecret").Encoded()
+		case "7":
+			// not a digest: a path to a blob of the repository r2
+			s = "sha256:../../../r2/blobs/sha256/" + digest.FromString("c1").Encoded()
 		default:
 			s = "sha512:zz" + p[1]
 		}
